@@ -131,7 +131,14 @@ func (g *Gen) genMisuse(t *rapid.T) *Op {
 		}
 	}
 	alive := m.AliveList()
-	class := rapid.SampledFrom([]string{"stale", "stale", "stale", "dup-add", "remove-missing", "empty", "omitted-target", "dead-target"}).Draw(t, "misuseClass")
+	class := rapid.SampledFrom([]string{"stale", "stale", "stale", "dup-add", "remove-missing", "empty", "omitted-target", "dead-target", "batch"}).Draw(t, "misuseClass")
+	if class == "batch" {
+		if op := g.genBatchMisuse(t); op != nil {
+			op.Sub = "batch"
+			return op
+		}
+		class = "stale"
+	}
 	if len(alive) == 0 && class != "stale" {
 		class = "stale"
 	}
@@ -347,4 +354,68 @@ func (g *Gen) staleRemove(t *rapid.T) *Op {
 	}
 	m := rapid.IntRange(0, len(ExInsts)-1).Draw(t, "exchanger")
 	return &Op{K: "remove", P: PEx, M: m, Rem: subset(t, 0xffff&^ExInsts[m].Mask, 1, 2, "rem")}
+}
+
+// genBatchMisuse draws a batch operation that is not applicable to at least one selected entity (duplicate add,
+// removal of a missing component, relation change on a missing component, omitted relation target).
+// Returns nil if the current state offers none.
+func (g *Gen) genBatchMisuse(t *rapid.T) *Op {
+	m := g.m()
+	if g.It.locked() {
+		return nil
+	}
+	type cand struct {
+		fi  int
+		sel []int
+	}
+	var cs []cand
+	for i, f := range m.Filters {
+		if f.Inst < 0 || f.Stale {
+			continue
+		}
+		if sel := m.Select(f, nil); len(sel) > 0 {
+			cs = append(cs, cand{i, sel})
+		}
+	}
+	if len(cs) == 0 {
+		return nil
+	}
+	c := rapid.SampledFrom(cs).Draw(t, "batchFilter")
+	var union uint16
+	common := uint16(0xffff)
+	for _, s := range c.sel {
+		union |= m.Ents[s].Mask
+		common &= m.Ents[s].Mask
+	}
+	switch rapid.IntRange(0, 3).Draw(t, "batchMisuseKind") {
+	case 0: // duplicate add for some entity
+		if union == 0 {
+			return nil
+		}
+		comp := rapid.SampledFrom(listOf(union)).Draw(t, "presentComp")
+		op := &Op{K: "addBatch", F: c.fi, P: PMap, M: comp + comps.N*rapid.IntRange(0, 1).Draw(t, "map1"), Comps: []int{comp}, Init: drawInit(t), Vals: g.vals(1)}
+		op.Rels = g.relsFor(t, op.Comps)
+		return op
+	case 1: // removal of a component some entity lacks
+		missing := ^common
+		if missing == 0 {
+			return nil
+		}
+		comp := rapid.SampledFrom(listOf(missing)).Draw(t, "missingComp")
+		return &Op{K: "removeBatch", F: c.fi, P: PMap, M: comp + comps.N*rapid.IntRange(0, 1).Draw(t, "map1"), Rem: []int{comp}, Fn: rapid.Bool().Draw(t, "fn")}
+	case 2: // relation change on a component some entity lacks
+		missing := ^common & comps.RelMask
+		if missing == 0 {
+			return nil
+		}
+		comp := rapid.SampledFrom(listOf(missing)).Draw(t, "missingRel")
+		return &Op{K: "setRelBatch", F: c.fi, P: PMap, M: comp + comps.N*rapid.IntRange(0, 1).Draw(t, "map1"), Rels: []RelSpec{{C: comp, T: g.pickTarget(t), S: 1}}, Fn: rapid.Bool().Draw(t, "fn")}
+	default: // relation component added without target
+		free := ^union & comps.RelMask
+		if free == 0 {
+			return nil
+		}
+		comp := rapid.SampledFrom(listOf(free)).Draw(t, "relComp")
+		return &Op{K: "addBatch", F: c.fi, P: PMap, M: comp + comps.N*rapid.IntRange(0, 1).Draw(t, "map1"), Comps: []int{comp}, Init: drawInit(t), Vals: g.vals(1)}
+	}
 }
